@@ -32,7 +32,8 @@ type c20Flags struct {
 	Acc, Com  []string
 	Map       []MapRuleF
 	SortAlpha bool
-	Universe  []c20Uni
+	Universe  []c20Uni // the classes of the journal's commodities
+	UniText   string   // stream `universe`: the text of the universe file (Universe = what it declares for the journal's commodities)
 }
 
 func (f c20Flags) windowArgs() []string {
@@ -74,7 +75,7 @@ func (f c20Flags) weightsArgs(universePath string) []string {
 	if f.SortAlpha {
 		a = append(a, "-a")
 	}
-	if len(f.Universe) > 0 {
+	if len(f.Universe) > 0 || f.UniText != "" {
 		a = append(a, "--universe", universePath)
 	}
 	return a
@@ -100,6 +101,9 @@ func (f c20Flags) balanceArgs() []string {
 }
 
 func (f c20Flags) universeYAML() string {
+	if f.UniText != "" {
+		return f.UniText
+	}
 	var b strings.Builder
 	for _, u := range f.Universe {
 		fmt.Fprintf(&b, "%q: [%s]\n", u.Class, strings.Join(u.Coms, ", "))
@@ -158,6 +162,7 @@ type c20Case struct {
 	J      *Journal
 	Text   string
 	F      c20Flags
+	U      *c20UFile // stream `universe`: the generated universe file
 	Tags   []string
 
 	RetCode             int
@@ -172,11 +177,23 @@ type c20Case struct {
 }
 
 func (tc *c20Case) Input() map[string]any {
-	return map[string]any{"journal": tc.Text,
+	in := map[string]any{"journal": tc.Text,
 		"returns_args": "portfolio returns " + strings.Join(tc.F.windowArgs(), " ") + " FILE",
 		"weights_args": "portfolio weights --csv " + strings.Join(tc.F.weightsArgs("UNIVERSE"), " ") + " FILE",
 		"balance_args": "balance " + strings.Join(tc.F.balanceArgs(), " ") + " FILE",
 		"universe":     tc.F.universeYAML(), "wire_flags": tc.F.Wire(), "wire_journal": tc.J.Wire()}
+	if tc.U != nil {
+		// the file is regenerated from (seed, stream, index, tier); a long one is shown shortened
+		in["universe"] = c20UElide(tc.U.Text)
+		in["universe_bytes"], in["universe_longest_line"], in["universe_shape"] = len(tc.U.Text), tc.U.LongLine, tc.U.Shape
+		in["universe_must_be_rejected"] = tc.U.Invalid
+		var decl []string
+		for _, u := range tc.F.Universe {
+			decl = append(decl, c20Clip(u.Class, 200)+": "+strings.Join(u.Coms, " "))
+		}
+		in["universe_declares_for_the_journal"] = decl
+	}
+	return in
 }
 
 func c20Span(j *Journal) (lo, hi int) {
@@ -364,6 +381,9 @@ func c20GenCase(c *Ctx, stream string, i int) *c20Case {
 		}
 	}
 	tc.F = f
+	if stream == "universe" {
+		c20ApplyUniverse(c, tc)
+	}
 	tc.Text, _ = j.Text()
 	return tc
 }
@@ -464,7 +484,7 @@ func (tc *c20Case) run(c *Ctx, dir string) {
 	path := base + ".knut"
 	upath := base + ".yaml"
 	os.WriteFile(path, []byte(tc.Text), 0o644)
-	if len(tc.F.Universe) > 0 {
+	if len(tc.F.Universe) > 0 || tc.F.UniText != "" {
 		os.WriteFile(upath, []byte(tc.F.universeYAML()), 0o644)
 	}
 	to := 20 * time.Second
@@ -724,7 +744,7 @@ func c20Check(c *Ctx, bt *Batch, tc *c20Case, agreed *bool) {
 		on bool
 		s  string
 	}{{tc.F.Val == "", "/noval"}, {tc.F.From != 0, "/from"}, {tc.F.Last != 0, "/last"}, {len(tc.F.Acc) > 0, "/acc"}, {len(tc.F.Com) > 0, "/com"},
-		{len(tc.F.Universe) > 0, "/uni"}, {len(tc.F.Map) > 0, "/map"}, {tc.F.SortAlpha, "/alpha"}, {tc.ConstPrices, "/constp"}, {tc.NoAnno, "/noanno"}} {
+		{len(tc.F.Universe) > 0, "/uni"}, {tc.U != nil, "/file"}, {tc.U != nil && tc.U.Invalid != "", "/invalid"}, {len(tc.F.Map) > 0, "/map"}, {tc.F.SortAlpha, "/alpha"}, {tc.ConstPrices, "/constp"}, {tc.NoAnno, "/noanno"}} {
 		if x.on {
 			sig += x.s
 		}
@@ -907,12 +927,21 @@ func c20Check(c *Ctx, bt *Batch, tc *c20Case, agreed *bool) {
 	}
 
 	// ------------------------------------------------ weights
+	if tc.U != nil {
+		c.Class(fmt.Sprintf("c20/universe-file/%s/file%s/line%s/invalid=%v/%s", tc.U.Profile, c20USizeClass(len(tc.U.Text)), c20USizeClass(tc.U.LongLine), tc.U.Invalid != "", wOutcome))
+		if tc.U.Invalid != "" {
+			// a universe file that cannot be loaded as a whole is not used in part: the command fails
+			c.Monitor(tc.Stream, tc.Idx, "universe_file_is_used_whole_or_rejected", in, wOutcome != "ok",
+				fmt.Sprintf("the universe file has to be rejected (%s), but the command exits 0\n%s", tc.U.Invalid, tc.WCsv))
+			return
+		}
+	}
 	if wOutcome != "ok" {
 		if wOutcome == "error" {
 			c.Tag("weights-rejected")
 		}
 		bt.Add(func(model string) {
-			if model == "unsupported" || tagged(tc.Tags, "universe-duplicate") {
+			if model == "unsupported" || tagged(tc.Tags, "universe-duplicate") || tagged(tc.Tags, "universe-invalid") {
 				return
 			}
 			if !c.Compare(tc.Stream, tc.Idx, "weights", in, wOutcome, strings.Fields(model)[0]) {
@@ -955,6 +984,9 @@ func c20Check(c *Ctx, bt *Batch, tc *c20Case, agreed *bool) {
 			}
 		}
 		return res
+	}
+	if tc.U != nil && len(tc.F.Map) == 0 && !undefinedReal {
+		c20CheckDeclaredGroups(c, tc, in, wdates, rows, paths, children, tol)
 	}
 	bt.Add(func(model string) {
 		if model == "unsupported" {
@@ -1303,12 +1335,16 @@ func runC20(c *Ctx) {
 	d += runStream("noflow", 0, n/3)
 	d += runStream("malformed", 0, n/4)
 	d += runStream("mixed", 0, n/4)
+	for a, nu := 0, c.N(400, 4000); a < nu; a += 400 { // in portions: the universe files are large
+		d += runStream("universe", a, min(a+400, nu))
+	}
+	runC20UniverseReader(c, c.N(500, 8000))
 	runDecStream(c, c.N(2000, 20000))
 	if d > 0 && !c.Replay {
 		c.Notes = append(c.Notes, fmt.Sprintf("directed search: %d disagreements, %d additional cases", d, 3*n))
 		runStream("portfolio", n, 3*n)
 		runStream("noflow", n/3, n)
-	} else if c.Replay && c.OnlyIndex >= n/3 {
+	} else if c.Replay && c.OnlyIndex >= n/3 && (c.OnlyStr == "portfolio" || c.OnlyStr == "noflow") {
 		runStream(c.OnlyStr, c.OnlyIndex, c.OnlyIndex+1)
 	}
 }
